@@ -14,14 +14,15 @@ func Run(c *fw.Ctx) {
 	c.Cases("newton.directed", 400, caseNewtonDirected)
 	c.Cases("rprop.directed", 12, func(cs *fw.Case) { caseRprop(cs, cs.Index, "") })
 	c.Cases("blahut.directed", 12, func(cs *fw.Case) { caseBlahut(cs, cs.Index) })
-	c.Cases("saga.directed", 16, func(cs *fw.Case) { caseSaga(cs, cs.Index) })
+	c.Cases("adam.directed", 4, func(cs *fw.Case) { caseAdam(cs, cs.Index) })
+	c.Cases("saga.directed", 20, func(cs *fw.Case) { caseSaga(cs, cs.Index) })
 	// seeded random lists
 	c.Cases("bfgs", c.N(3000, 24000), func(cs *fw.Case) { caseBFGS(cs, -1) })
 	c.Cases("newton", c.N(4000, 32000), caseNewton)
 	c.Cases("rprop", c.N(2400, 20000), func(cs *fw.Case) { caseRprop(cs, -1, "") })
 	c.Cases("rprop.constrained", c.N(800, 6000), func(cs *fw.Case) { caseRprop(cs, -1, []string{"hit", "near"}[cs.Index%2]) })
 	c.Cases("gradientDescent", c.N(1500, 12000), caseGD)
-	c.Cases("adam", c.N(1200, 10000), caseAdam)
+	c.Cases("adam", c.N(1200, 10000), func(cs *fw.Case) { caseAdam(cs, -1) })
 	c.Cases("saga", c.N(2000, 16000), func(cs *fw.Case) { caseSaga(cs, -1) })
 	c.Cases("lineSearch", c.N(6000, 48000), caseLineSearch)
 	c.Cases("blahut", c.N(2400, 20000), func(cs *fw.Case) { caseBlahut(cs, -1) })
